@@ -37,6 +37,7 @@ type frame struct {
 	depth  int
 	top    bool
 	defers []deferred
+	armed  T // guard under which a closure calling recover() has been deferred so far ("" = never)
 	loops  map[*ssa.BasicBlock]*loopInfo
 	// guard of the block being executed (may be strengthened by calls)
 	g T
@@ -840,6 +841,13 @@ func (fr *frame) execInstr(ins ssa.Instruction, cur *State, incoming map[*ssa.Ba
 	case *ssa.Defer:
 		args := fr.callArgs(&x.Call)
 		fr.defers = append(fr.defers, deferred{call: &x.Call, args: args})
+		if deferRecovers(&x.Call) {
+			if fr.armed == "" {
+				fr.armed = fr.g
+			} else {
+				fr.armed = or(fr.armed, fr.g)
+			}
+		}
 	case *ssa.Go, *ssa.Send, *ssa.Select:
 		vc.errorf("unsupported instruction %T in %s", ins, funcKey(fr.fn))
 	case *ssa.Store:
@@ -1469,4 +1477,28 @@ func isSourceName(c string) bool {
 		return false
 	}
 	return !strings.ContainsAny(c, ".$ ")
+}
+
+// deferRecovers: the deferred callee is a function (literal) whose body calls the builtin recover().
+func deferRecovers(c *ssa.CallCommon) bool {
+	var fn *ssa.Function
+	switch v := c.Value.(type) {
+	case *ssa.MakeClosure:
+		fn, _ = v.Fn.(*ssa.Function)
+	case *ssa.Function:
+		fn = v
+	}
+	if fn == nil {
+		return false
+	}
+	for _, b := range fn.Blocks {
+		for _, ins := range b.Instrs {
+			if call, ok := ins.(ssa.CallInstruction); ok {
+				if bi, ok := call.Common().Value.(*ssa.Builtin); ok && bi.Name() == "recover" {
+					return true
+				}
+			}
+		}
+	}
+	return false
 }
